@@ -11,10 +11,12 @@ def main():
     os.dup2(devnull, 1)
     from vf.props import c19
 
-    solver, comp, metric, history, pops = c19.run_once(case)
-    sig = c19.hof_signature(solver)
+    sigs = []
+    for cfg in case["configs"]:
+        solver, comp, metric, history, pops = c19.run_once(cfg)
+        sigs.append(c19.hof_signature(solver))
     os.dup2(saved, 1)
-    print(json.dumps(sig))
+    print(json.dumps(sigs))
 
 
 if __name__ == "__main__":
